@@ -221,6 +221,13 @@ class Session:
                     f.request = p
                     c.fetches[k] = f
                     p.fetch = f
+                elif hostile:
+                    # a rule the reference matcher does not define: if the daemon accepts it, its notifications are not judged
+                    f = Fetch(c, fid, None)
+                    f.opaque = True
+                    f.request = p
+                    c.fetches[k] = f
+                    p.fetch = f
         if p.key is None and method in ("set", "call") and "id" not in msg:
             self.idless.append(p)
         if p.key is None and method in ("add", "remove", "change", "fetch", "unfetch", "authenticate", "passwd"):
@@ -766,7 +773,7 @@ class Session:
         return out
 
     def _check_replica(self, f, when):
-        if not f.conn.healthy or not f.conn.ledger:
+        if not f.conn.healthy or not f.conn.ledger or f.opaque:
             return True     # a faulty peer's own replica is its own problem
         exp = self._expected_replica(f)
         have = f.replica
@@ -1068,6 +1075,7 @@ Pending.reply_trusted = True
 Pending.may_refuse = False
 Pending.ambiguous = False
 Fetch.request = None
+Fetch.opaque = False
 
 
 def _j(x):
